@@ -85,9 +85,10 @@ Definition run_ethpl (c l : nat) (seed ht : N) (src dst mode payload : bytes) (e
   match encode_ether b ht src dst with
   | Ok e =>
       let hl := hlen_of_type ht in
-      let r := if is_mode mode MODE_S then ether_set_payload (prewrite e hl payload) plen
-               else ether_append e payload (plen + extra) in
-      let m := with_rb_pre (arr b) (arr e) r rb_ether in
+      let st := if is_mode mode MODE_S then (let r0 := ether_set_payload (prewrite e hl payload) plen in (r0, buf_after e r0))
+                else ether_append_st e payload (plen + extra) in
+      let r := fst st in
+      let m := with_rb_pre (arr b) (snd st) r rb_ether in
       let want_len := if is_mode mode MODE_S then (14 + plen)%nat else Nat.max 60 (14 + plen) in
       let fits := Nat.eqb hl 14 && Nat.leb (14 + plen) c && Nat.leb 60 c
                   && Nat.eqb (List.length src) 6 && Nat.eqb (List.length dst) 6 in
@@ -150,9 +151,10 @@ Definition run_ip4pl (c l : nat) (seed ttl : N) (src dst : bytes) (proto : N) (m
   let plen := List.length payload in
   match encode_ip4 b ttl src dst with
   | Ok ip =>
-      let r := if is_mode mode MODE_S then ip4_set_payload (prewrite ip 20 payload) plen proto
-               else ip4_append ip payload proto in
-      let m := with_rb_pre (arr b) (arr ip) r rb_ip4 in
+      let st := if is_mode mode MODE_S then (let r0 := ip4_set_payload (prewrite ip 20 payload) plen proto in (r0, buf_after ip r0))
+                else ip4_append_st ip payload proto in
+      let r := fst st in
+      let m := with_rb_pre (arr b) (snd st) r rb_ip4 in
       let fits := Nat.leb 10 l && Nat.leb (20 + plen) c && Nat.leb (20 + plen) 1508 in
       out3 m (if fits then ip4_expect (arr b) r ttl proto src dst payload else "-") "-"
   | other => out3 (show_enc (arr b) other) "-" "-"
@@ -186,9 +188,10 @@ Definition run_udppl (c l : nat) (seed sport dport : N) (mode payload : bytes) :
   let plen := List.length payload in
   match encode_udp b sport dport with
   | Ok u =>
-      let r := if is_mode mode MODE_S then udp_set_payload (prewrite u 8 payload) plen
-               else udp_append u payload in
-      let m := with_rb_pre (arr b) (arr u) r rb_udp in
+      let st := if is_mode mode MODE_S then (let r0 := udp_set_payload (prewrite u 8 payload) plen in (r0, buf_after u r0))
+                else udp_append_st u payload in
+      let r := fst st in
+      let m := with_rb_pre (arr b) (snd st) r rb_udp in
       let fits := Nat.leb (8 + plen) c && Nat.leb (8 + plen) 1488 in
       out3 m (if fits then udp_expect (arr b) r sport dport payload else "-") "-"
   | other => out3 (show_enc (arr b) other) "-" "-"
@@ -300,8 +303,10 @@ Definition run_ip6pl (c l : nat) (seed hop : N) (src dst : bytes) (nh : N) (mode
   let plen := List.length payload in
   match encode_ip6 b hop src dst with
   | Ok (ip, fresh) =>
-      let r := if is_mode mode MODE_S then ip6_set_payload (if fresh then ip else prewrite ip 40 payload) plen nh
-               else ip6_append ip payload (is_mode mode MODE_N) nh in
+      let st := if is_mode mode MODE_S
+                then (let r0 := ip6_set_payload (if fresh then ip else prewrite ip 40 payload) plen nh in (r0, buf_after ip r0))
+                else ip6_append_st ip payload (is_mode mode MODE_N) nh in
+      let r := fst st in
       if fresh then
         (* the frame lives in a private 40-byte buffer: the caller's buffer is untouched *)
         out3 (match r with
@@ -310,7 +315,7 @@ Definition run_ip6pl (c l : nat) (seed hop : N) (src dst : bytes) (nh : N) (mode
               | _ => "panic"
               end) "-" "-"
       else
-        let m := with_rb_pre (arr b) (arr ip) r rb_ip6 in
+        let m := with_rb_pre (arr b) (snd st) r rb_ip6 in
         let fits := Nat.leb (40 + plen) c && Nat.leb (40 + plen) 1508 && negb (is_mode mode MODE_N) in
         out3 m (if fits then ip6_expect (arr b) r hop nh src dst payload else "-") "-"
   | _ => out3 "panic" "-" "-"
@@ -502,8 +507,7 @@ Definition run_dnsq (id fl : N) (name : bytes) (qt : N) : string :=
              | _ => "no-result"
              end
            else "-" in
-  (* recorded defect: DecodeQuestion demands index+6 <= len, so the 17-byte query for the root name is rejected *)
-  out3 m s (if eqbytes name [0] then "dnsq-root-name" else "-").
+  out3 m s "-".
 
 (* ---------------- DHCPv4 ---------------- *)
 Definition COMMA : ascii := ","%char.
